@@ -230,6 +230,13 @@ def get_strategy_base():
             total = self._round_qty(budget / maxp)
             if total <= 0:
                 return None
+            if pr.get('repeat_exits'):
+                # fixed trade size: the size of the first trade is used again whenever it is affordable
+                ft = self.__dict__.get('_fixed_total')
+                if ft is None:
+                    self.__dict__['_fixed_total'] = total
+                elif ft <= total:
+                    total = ft
             qtys = self._split(total, len(rows), 'should', 'eq')
             if len(qtys) != len(rows):
                 rows = rows[:1]
@@ -313,6 +320,18 @@ def get_strategy_base():
                 rows = self._exit_rows(hook, kind, side, ref, qty)
                 if rows is None:
                     continue
+                if self._prog.get('repeat_exits') and hook == 'open':
+                    # a strategy with fixed levels: the next trade of the same size declares exactly the same rows again
+                    # (as long as they still lie on their proper side of the price)
+                    sticky = self.__dict__.setdefault('_sticky_exits', {})
+                    prev = sticky.get((kind, side))
+                    above = (kind == 'tp') == (side == 'long')
+                    if prev and abs(sum(q for q, _ in prev) - qty) <= 1e-12 * max(1.0, qty) and \
+                            all((px > ref) if above else (px < ref) for _, px in prev):
+                        rows = list(prev)
+                        self._c.count('identical_exit_redeclared_in_next_trade')
+                    else:
+                        sticky[(kind, side)] = list(rows)
                 other = self._decl['tp' if kind == 'sl' else 'sl']
                 if other is not None and rows == other:
                     continue   # identical SL and TP is a user error jesse rejects by design
@@ -666,6 +685,7 @@ def gen_program(st, exchange_type, profile=None):
         'p_sl_inside_ladder': st.choice([0.0, 0.3], 'p_sil'),
         'p_refine_on_open': st.choice([0.0, 0.5], 'p_roo'),
         'p_inplace': st.choice([0.0, 0.0, 0.5], 'p_inplace'),
+        'repeat_exits': st.chance(0.1, 'repeat_exits'),
         'ohlc_entries': st.chance(0.3, 'ohlc'),
         'data_gate': st.chance(0.3, 'dgate'),
     }
